@@ -5,6 +5,7 @@ outcomes, deep snapshots, and the SHARING GRAPH (which object slots hold the sam
 as alias classes (first occurrence numbering), never as addresses.  Import-free.
 -/
 import CnfgenModel.Heap.Linear
+import CnfgenModel.Heap.Args
 namespace Cnfgen
 namespace Heap
 local notation "Addr" => Nat
@@ -45,6 +46,16 @@ inductive Instr where
   | pbcSet (c : Reg) (i : Nat) (coef lit : Int)
   | normBip (g : Reg)                             -- `BipartiteGraph.normalize(B)`: the SAME object for a cnfgen graph
   | bipAddEdge (g : Reg) (u v : Int)              -- `B.add_edge(u, v)` by the caller
+  -- w19b: arguments of the generators (Heap/Args.lean)
+  | mkGraph (G : SimpleG)                         -- a `cnfgen.graphs.Graph` of the caller
+  | mkDiG (D : DiG)                               -- a `DirectedGraph`
+  | mkNx (directed : Bool) (n : Nat) (es : List (Nat × Nat))   -- a networkx object
+  | normalize (cls : GKind) (g : Reg)             -- `<cls>.normalize(G)`
+  | gAddEdge (g : Reg) (u v : Int)                -- `G.add_edge(u, v)` by the caller, any cnfgen graph
+  | tseitin (g : Reg) (charges : Option Reg) (descr : String)          -- `TseitinFormula(G, charges)`
+  | gphp (g : Reg) (functional onto : Bool) (descr : String)            -- `GraphPigeonholePrinciple(B, functional, onto)`
+  | planted (p : Reg) (k n m : Nat) (cands dense : List (List Int)) (descr : String)   -- `RandomKCNF(k, n, m, planted_assignments=P)`, draws fixed
+  | liveGroup (f : Reg)                           -- the group object `p` made by the family call that returned `f`
   deriving Repr, Inhabited
 
 /-- machine state: the store, the registers (one per executed instruction; `none`: no object), the outcomes -/
@@ -133,6 +144,27 @@ def step (cfg : Cfg) (m : Machine) (ins : Instr) : Option Machine :=
         match B.addEdge u v with
         | .error e => fin (s, .error e)
         | .ok B' => fin (write s g (.bipg B'), .ok none)
+  | .mkGraph G => let (s1, a) := alloc s (.graph G); fin (s1, .ok (some a))
+  | .mkDiG D => let (s1, a) := alloc s (.dig D); fin (s1, .ok (some a))
+  | .mkNx d n es => let (s1, a) := alloc s (.nx d n es); fin (s1, .ok (some a))
+  | .normalize cls g => do let g ← m.reg g; fin (addrRes (Heap.normalize s cls g))
+  | .gAddEdge g u v => do let g ← m.reg g; fin (unitRes (graphAddEdge s g u v))
+  | .tseitin g ch d => do
+      let g ← m.reg g
+      match ch with
+      | none => fin (addrRes (famCall cfg s [g] [(0, .simple)] (some d) (tseitinProg false)))
+      | some c => do let c ← m.reg c; fin (addrRes (famCall cfg s [g, c] [(0, .simple)] (some d) (tseitinProg true)))
+  | .gphp g fn onto d => do
+      let g ← m.reg g
+      fin (addrRes (famCall cfg s [g] [(0, .bipartite)] (some d) (gphpProg fn onto)))
+  | .planted p k n mm cands dense d => do
+      let p ← m.reg p
+      fin (addrRes (famCall cfg s [p] [] (some d) (plantedProg k n mm cands dense)))
+  | .liveGroup f => do
+      let f ← m.reg f
+      match lastBGroup s f with
+      | none => none
+      | some a => fin (s, .ok (some a))
 
 def runProg (cfg : Cfg) : Machine → List Instr → Option Machine
   | m, [] => some m
@@ -149,6 +181,7 @@ def slots (s : Store) (a : Addr) : List Addr :=
   | some (.opb cl hd gr _) => [a, hd, cl, gr] ++ (readRefs s cl).getD []
   | some (.refs as) => a :: as
   | some (.view f d) => [a, f, d]
+  | some (.bgroup g _) => [a, g]          -- the group object and the graph its attribute `G` holds
   | _ => [a]
 
 /-- first-occurrence numbering of a list of addresses -/
